@@ -213,7 +213,10 @@ class _AttrIterable(Attr[Tuple[S, ...]], ABC):
         value: Optional[Iterable[S]],
         name: str,
     ) -> Optional[AttrIterableT]:
-        return cls(tuple(value), name) if value is not None else None
+        if value is None:
+            return None
+        # a reference to a list attribute is kept as it is (like ``__init__`` does)
+        return cls(value if isinstance(value, _Ref) else tuple(value), name)
 
     def _to_onnx_deref(self) -> AttributeProto:
         # 1.15 introduced attr_type which provides much better performance
